@@ -98,12 +98,12 @@ theorem truncate_covers (x : List K) (hx : x.Pairwise (· < ·)) (hx0 : x ≠ []
       · by_contra hc
         have : x[k] < x[leftIdx x l'] := Search.getElem_lt_of_lt hx hi (by unfold leftIdx; omega)
         exact absurd (lt_of_lt_of_le this h1) (not_lt.mpr hlk)
-      · omega
+      · unfold leftIdx at h0; omega
     · rcases hR with ⟨hi, h1, _⟩ | ⟨_, h0⟩
       · by_contra hc
         have : x[rightIdx x r'] < x[k] := Search.getElem_lt_of_lt hx hk (by unfold rightIdx; omega)
         exact absurd (lt_of_le_of_lt h1 this) (not_lt.mpr hkr)
-      · omega
+      · unfold rightIdx at h0; omega
 
 /-- the kept run is the smallest contiguous run covering the requested range: every index range
 `[a, b]` that starts at or before `left` (or at the first sample) and ends at or after `right`
